@@ -113,6 +113,27 @@ def located_from_model(answers, lists):
     return out
 
 
+def field_located_from_model(ans, program):
+    """FIELDLOC answer -> [(kind, location or None (= some `$default byte_order` value))], defaults"""
+    if not ans.startswith("fieldloc"):
+        raise common.InfraError("model answered %r to FIELDLOC" % ans[:100])
+    fields, defaults = c14abs.fields_by_id(program)
+    out = []
+    for item in [x for x in ans[len("fieldloc"):].strip().split(";") if x]:
+        who, _, rest = item.partition(":")
+        kind, _, at = rest.rpartition("@")
+        tid, _, fname = who.partition(".")
+        f = fields[(int(tid), fname)]
+        if at == "field":
+            loc = f["loc"]
+        elif at == "inherited":
+            loc = None
+        else:
+            loc = f["attrs"][int(at[4:])]["loc"]["value"]
+        out.append((kind, loc))
+    return out, defaults
+
+
 def located_real(ob):
     return [(k, l, n) for k, l, n in zip(ob["kinds"], ob["locations"], ob["notes"])]
 
@@ -1147,6 +1168,12 @@ def run_cases(chk, cases, model_ok, stats):
                     for ln, _ in al:
                         lines.append(ln)
                         idx.append(len(obs) - 1)
+            if ob["exc"] is None and (not ob["kinds"] or all(
+                    k.split(":")[0] in c14abs.VERIFY_KINDS for k in ob["kinds"])):
+                # the verify pass ran (and reported, or the module went on): where do the errors of
+                # its Field traversal point?
+                lines.append("FIELDLOC " + json.dumps(ob["program"], separators=(",", ":")))
+                idx.append(len(obs) - 1)
             if "bo_real" in ob:
                 lines.append(bo_line(ob["program"]))
                 idx.append(len(obs) - 1)
@@ -1187,6 +1214,29 @@ def run_cases(chk, cases, model_ok, stats):
                                        "not defaultable at the name, wrong value at the value",
                            "theorem_or_correspondence": "model_c14 ATTRS (checkAttrListL / C14_attr_errors_located) vs "
                                                         "locations of the errors of attribute_util._check_attributes"},
+                          key="input:" + c.text, found_input=False)
+            continue
+        if line.startswith("FIELDLOC "):
+            stats["model_field_locations_checked"] = stats.get("model_field_locations_checked", 0) + 1
+            model_loc, defaults = field_located_from_model(ans, ob["program"])
+            real_loc = [(k, l) for k, l in zip(ob["kinds"] or [], ob["locations"] or [])
+                        if k in c14abs.FIELD_VERIFY_KINDS]
+            stats["field_errors_located"] = stats.get("field_errors_located", 0) + len(real_loc)
+            same = len(model_loc) == len(real_loc) and all(
+                mk == rk and (ml == rl if ml is not None else rl in defaults)
+                for (mk, ml), (rk, rl) in zip(model_loc, real_loc))
+            if same:
+                continue
+            stats["disagreements"] += 1
+            chk.violation("correspondence",
+                          {"input": c.text, "main": c.main, "rule": c.rule, "tag": c.tag,
+                           "model": [list(x) for x in model_loc], "observed": [list(x) for x in real_loc],
+                           "messages": ob.get("messages"),
+                           "expected": "'byte_order required' at the field; 'not allowed' / 'Null' at the value of "
+                                       "the field's own byte_order attribute or of the $default in effect; "
+                                       "[requires] placement errors at the value of the field's own [requires]",
+                           "theorem_or_correspondence": "model_c14 FIELDLOC (verifyFieldsL / C14_field_errors_located) "
+                                                        "vs locations of the errors of _verify_field_attributes"},
                           key="input:" + c.text, found_input=False)
             continue
         if line.startswith("BYTEORDER "):
